@@ -7,9 +7,12 @@ ENTRY = {
                 "(CnameBeatsAddress, ExactShadowsWildcard, MostSpecificWildcard, SelfAndTypeExceptionsPassThrough, AddressesComeFromTableForFinalName, MatchedButNoValue) "
                 "and termination as a liveness property under weak fairness plus the variant |visited| on the step machine. "
                 "Every table is replayed in every ordering into the real filtering.New/CheckHost (membership), a stratified sample through a real dnsforward.Server over UDP "
-                "with a recording mock upstream (upstream questions, restored question, leading CNAME, addresses); random 10-20 entry tables at both levels are validated by TraceRewrites.tla.",
+                "with a recording mock upstream (upstream questions, restored question, leading CNAME, addresses); random 10-20 entry tables at both levels are validated by TraceRewrites.tla. "
+                "Histories: the table is edited through TabAdd/TabDelete/TabUpdate (the three API calls); the edit machine (820 tables, 25 724 edges) is walked on ONE live filter through the real HTTP handlers "
+                "with every query re-asked after every edit, random edit sequences on larger tables are validated by TraceRewrites.tla, and the live DNS server reaches same-length tables by updates in place. "
+                "Every table with a CNAME entry is also replayed with patterns in mixed case and canonical names in another letter case (termination under the watchdog; folded and verbatim reading admitted).",
         "design_ref": "DESIGN.md section 4 C06",
-        "note": "Trusted: TLC, conc()/abs() of the harness (label dictionary, request-side case), order-independence of the spec (checked by TLC). Entries are concretised lower-case. "
+        "note": "Trusted: TLC, conc()/abs() of the harness (label dictionary, request-side case), order-independence of the spec (checked by TLC). A disagreement on a live filter is reproduced by rehearsing its history on a fresh one. "
                 "Each call runs under a watchdog and is re-run alone before being reported as non-termination. "
                 "Open finding C06:canon-in-table-without-value-forwarded (pipeline level).",
         "technique": "TLA+ spec enumerated and model-checked by TLC (invariants + liveness); exhaustive vector replay into real code + TLC trace validation",
